@@ -25,6 +25,7 @@ ASSUMPTIONS = ['objective = dense table lookup, so values do not depend on '
     'the batch they are requested in (needed for the bitwise cache claim)',
     'targets with sigma_rho/sigma_1 < 1e-5 in an unfolding are not judged '
     'for exactness ("almost all")']
+COVER = ['cross.cross', 'cross._func', 'cross._func_eval', 'cross._iter', 'utils._info_appr', 'utils._maxvol']
 SHARDS = {'quick': 12, 'thorough': 16}
 MAX_SKIP_FRACTION = 0.25
 
